@@ -38,6 +38,36 @@
 //! formerly avoided / tainted situations again and reports a returning defect
 //! with its generic signature; the probe replays then have to pass.
 //!
+//! The rules are as narrow as the defects (narrowed with `C10_SURVEY`, see
+//! below): a shape that works on the unchanged tree is executed and fully
+//! asserted.  In particular, for F-C10-2 (a name re-used while the departure of
+//! its former holder is not durable):
+//!
+//! * re-creation is tainted only if it does not truncate and the former holder
+//!   left unsynced data ops or a synced image behind, or if a former holder
+//!   had *arrived* under the name by a rename that is still not durable;
+//!   `open` with create(+new)+truncate+write, `File::create` and `fs::write`
+//!   (both front ends) over any left-overs, and a non-truncating create over a
+//!   name whose holder left nothing behind, are asserted in full;
+//! * such a re-created file is tainted later only when it was file-synced and
+//!   a sync_dir then makes the old departure durable (`Facts::born_over`);
+//! * a file renamed onto a name with left-over unsynced data ops is tainted
+//!   when that rename becomes durable (not before), or when it is renamed back
+//!   to the first name of its own not-yet-durable chain;
+//! * a file renamed *away* from a name (rename not durable) is tainted when
+//!   something is renamed onto that name or a data op is made under it;
+//! * with a crash oracle layered on top (C07, `crash_oracle_on_top`) left-over
+//!   unsynced data ops taint at once, as torn writes put them into the
+//!   durable image.
+//!
+//! F-C10-10 taints only when a sync_dir makes a rename durable while an earlier
+//! not-yet-durable entry op on one of its names lies in another directory
+//! (`Ren::flushed_in_order`); a chain made durable in history order, wholly or
+//! as a prefix, stays asserted.  F-C10-11 taints a file under the name of a
+//! removed directory only when it is renamed away from it.  F-C10-1 and
+//! F-C10-4 were surveyed and are already exact (every write after a rename
+//! and every directory rename misbehaves).
+//!
 //! The rules are phrased over *history facts* (`Facts` per file inode,
 //! `NameFacts` per name: "data not file-synced since ...", "renamed and no
 //! sync_dir of a parent since", "a file left this name and no sync_dir of the
@@ -172,19 +202,57 @@ pub(crate) struct Facts {
     /// renamed (as a file) and the rename(s) not yet followed by a sync_dir
     /// of one of the parent directories involved
     pub(crate) renamed: Option<Ren>,
+    /// the file was created under a name while the departure of a former
+    /// holder of the name (unlink / rename away / replacement) was not yet
+    /// durable: the directories whose sync_dir makes such a departure
+    /// durable (the parent of the name; both parents of a not-yet-durable
+    /// rename away from the name) and that were not synced since
+    pub(crate) born_over: BTreeSet<String>,
 }
 #[derive(Clone, Debug)]
 pub(crate) struct Ren {
     pub(crate) dirty_at_rename: bool,
     /// every name the file had since the first not-yet-durable rename
     pub(crate) names: Vec<String>,
-    /// one of those names had a create/remove/rename not yet followed by a
-    /// sync_dir of its parent when the file was renamed from/to it
-    pub(crate) entry_pending: bool,
+    /// parallel to `names`: the name had a create / remove / rename (of
+    /// whatever file) not yet followed by a sync_dir of its parent when this
+    /// chain first touched it
+    pub(crate) pre: Vec<bool>,
 }
 impl Ren {
     pub(crate) fn parents(&self) -> BTreeSet<String> {
         self.names.iter().map(|n| parent_of(n)).collect()
+    }
+    /// Hop i is the rename names[i] -> names[i+1]; sync_dir(d) makes it
+    /// durable iff d is the parent of one of its two names.
+    fn hop_flushed(&self, i: usize, d: &str) -> bool {
+        parent_of(&self.names[i]) == d || parent_of(&self.names[i + 1]) == d
+    }
+    /// sync_dir(d) makes the chain's entry ops durable in history order: the
+    /// hops it makes durable form a prefix of the chain, and every earlier
+    /// not-yet-durable entry op on a name of such a hop lies in `d` as well
+    /// (so that it becomes durable by the same call).  Returns the number of
+    /// hops made durable, or None if the order is broken (F-C10-10).
+    fn flushed_in_order(&self, d: &str) -> Option<usize> {
+        let hops = self.names.len() - 1;
+        let mut m = 0;
+        let mut gap = false;
+        for i in 0..hops {
+            if self.hop_flushed(i, d) {
+                if gap {
+                    return None;
+                }
+                for k in [i, i + 1] {
+                    if self.pre[k] && parent_of(&self.names[k]) != d {
+                        return None;
+                    }
+                }
+                m = i + 1;
+            } else {
+                gap = true;
+            }
+        }
+        Some(m)
     }
 }
 
@@ -268,6 +336,15 @@ impl HostState {
         self.data_taint.clear();
         self.region_taint.clear();
         self.facts.clear();
+        // every file that survived is durable, content included: for the
+        // history facts that is the same as "file-synced at some point"
+        for p in PATHS.iter() {
+            if let Some(ino) = self.model.lookup(p) {
+                if !self.model.is_dir(ino) {
+                    self.facts.insert(ino, Facts { ever_synced: true, ..Facts::default() });
+                }
+            }
+        }
         self.names.clear();
         self.dir_removed.clear();
         self.dir_recreated.clear();
@@ -379,6 +456,19 @@ const KNOWN_KINDS: &[(&str, &str, &str)] = &[
 ];
 
 impl<'a> Run<'a> {
+    /// The interpreter is driven step by step by a client that layers a crash
+    /// oracle on top (C07 sets `keep_log`).  The F-C10-2 rule is then applied
+    /// in its wider form wherever a former holder of a name left *unsynced
+    /// data ops* behind: the views C10 compares are not affected by them once
+    /// they are truncated away / as long as the rename is not durable, but the
+    /// durable image under the name is (torn writes at a crash apply them).
+    /// Likewise F-C10-11: a file under the name of a directory whose removal
+    /// is not durable reads correctly, but its durable image collides with
+    /// the directory's.
+    pub(crate) fn crash_oracle_on_top(&self) -> bool {
+        self.keep_log
+    }
+
     /// Is the avoid/taint rule `bit` active?  Only while the scenario does
     /// not switch it off *and* its finding is still recorded as "known".
     pub(crate) fn on(&self, bit: u32) -> bool {
@@ -1089,11 +1179,11 @@ impl<'a> Run<'a> {
                 let p = pth(*path);
                 let Some(ino) = last.ino else { return };
                 if last.created {
-                    self.on_file_created(h, p, ino);
+                    self.on_file_created(h, p, ino, fl.truncate && fl.write);
                 }
                 // O_TRUNC counts as a data op even if the length was already 0
                 if fl.truncate && fl.write {
-                    self.on_len_changed(h, ino, &last, true);
+                    self.on_len_changed(h, ino, &last, true, p);
                     if last.new_len < last.old_len {
                         self.note_mutation(h, ino);
                     }
@@ -1102,19 +1192,24 @@ impl<'a> Run<'a> {
             Op::WriteAt { len, .. } | Op::Write { len, .. } => {
                 if *len > 0 {
                     let ino = last.ino.unwrap();
-                    self.on_len_changed(h, ino, &last, false);
+                    let through = self.hosts[h].mh[cur].as_ref().unwrap().path.clone();
+                    self.on_len_changed(h, ino, &last, false, &through);
                     self.note_mutation(h, ino);
                 }
             }
             Op::SetLen { .. } => {
                 let ino = last.ino.unwrap();
-                self.on_len_changed(h, ino, &last, true);
+                let through = self.hosts[h].mh[cur].as_ref().unwrap().path.clone();
+                self.on_len_changed(h, ino, &last, true, &through);
                 self.note_mutation(h, ino);
             }
             Op::SyncAll { .. } | Op::SyncData { .. } => {
-                let ino = self.hosts[h].mh[cur].as_ref().unwrap().ino;
+                let (ino, through) = {
+                    let mh = self.hosts[h].mh[cur].as_ref().unwrap();
+                    (mh.ino, mh.path.clone())
+                };
                 self.note_sync(h, ino);
-                self.on_file_synced(h, ino);
+                self.on_file_synced(h, ino, &through);
                 self.out.label("has-file-sync");
             }
             Op::SyncDir { path, .. } => {
@@ -1145,6 +1240,15 @@ impl<'a> Run<'a> {
                 }
                 if self.hosts[h].model.is_dir(ino) {
                     self.out.label("rename-dir");
+                    let empty = self.hosts[h].model.readdir(t).map(|k| k.is_empty()).unwrap_or(false);
+                    let pending = self.name(h, f).entry_pending;
+                    let to_clean = !self.name(h, t).entry_pending && !self.hosts[h].dir_removed.contains(t);
+                    self.out.label(format!(
+                        "rename-dir:{}:{}:{}",
+                        if empty { "empty" } else { "non-empty" },
+                        if pending { "creation-not-durable" } else { "creation-durable" },
+                        if to_clean { "onto-clean-name" } else { "onto-name-with-pending-entry-op" }
+                    ));
                     if self.on(K_DIR_RENAME) {
                         self.taint_region(h, f, "F-C10-4");
                         self.taint_region(h, t, "F-C10-4");
@@ -1225,9 +1329,10 @@ impl<'a> Run<'a> {
                 let p = pth(*path);
                 let ino = last.ino.unwrap();
                 if last.created {
-                    self.on_file_created(h, p, ino);
+                    // fs::write = File::create (create + truncate) + write
+                    self.on_file_created(h, p, ino, true);
                 }
-                self.on_len_changed(h, ino, &last, true);
+                self.on_len_changed(h, ino, &last, true, p);
                 self.note_mutation(h, ino);
             }
             _ => {}
@@ -1253,7 +1358,10 @@ impl<'a> Run<'a> {
         n.removal_pending = true;
     }
 
-    fn on_file_created(&mut self, h: usize, p: &str, ino: Ino) {
+    /// A file inode was created at `p`.  `truncating`: the creating call also
+    /// truncates (open flags contain truncate together with write; File::create;
+    /// fs::write through either front end).
+    fn on_file_created(&mut self, h: usize, p: &str, ino: Ino, truncating: bool) {
         self.note_name_used(h, p);
         self.hosts[h].vacated_any.remove(p);
         if let Some(di) = self.hosts[h].model.lookup(&parent_of(p)) {
@@ -1264,24 +1372,58 @@ impl<'a> Run<'a> {
         self.hosts[h].facts.insert(ino, Facts::default());
         // F-C10-2: a file created under a name whose former holder left data
         // behind (unsynced writes, or synced content whose removal is not yet
-        // durable) shows the old incarnation's bytes
+        // durable) shows the old incarnation's bytes -- unless the creating
+        // call truncates (open flags truncate+write, File::create, fs::write):
+        // then the new file is empty as it must be and behaves like any other
+        // file, with one exception (see `born_over` in on_dir_synced).  The
+        // same holds when the former holder left nothing behind (no unsynced
+        // data op, never file-synced).
         let n = self.name(h, p).clone();
-        if n.stale_pending || n.stale_persisted || n.removal_pending {
+        let stale = n.stale_pending || n.stale_persisted;
+        if stale || n.removal_pending {
             self.out.label("file-recreated-under-name-with-pending-removal-or-stale-data");
-            if self.on(K_RECREATE) {
-                self.taint_data(h, ino, "F-C10-2");
-                // a file that was renamed away from this name (rename not yet
-                // durable) can receive the new file's synced content when the
-                // rename becomes durable
-                let others: Vec<Ino> = self.hosts[h]
+            // ... and unless a former holder had *arrived* under the name by a
+            // rename that is still not durable: then the name keeps resolving
+            // to that rename's source, whatever is created under it
+            let rename_dest = self.hosts[h]
+                .facts
+                .values()
+                .filter_map(|f| f.renamed.as_ref())
+                .any(|r| r.names.iter().skip(1).any(|n| n == p));
+            let shows_old_data = stale && !truncating;
+            self.out.label(match (rename_dest, shows_old_data, truncating) {
+                (true, _, _) => "recreate:name-is-destination-of-not-yet-durable-rename",
+                (_, true, _) => "recreate:not-truncating-over-stale-data",
+                (_, false, true) => "recreate:truncating (asserted)",
+                (_, false, false) => "recreate:not-truncating-nothing-stale (asserted)",
+            });
+            // with a crash oracle layered on top the former holder's unsynced
+            // data ops matter even behind a truncation: a crash tears them
+            // into the durable image stored under the name
+            let torn_into_image = n.stale_pending && self.crash_oracle_on_top();
+            if torn_into_image && !shows_old_data && !rename_dest {
+                self.out.label("recreate:truncating-over-unsynced-data (durable image not asserted)");
+            }
+            let shows_old_data = shows_old_data || rename_dest || torn_into_image;
+            if n.removal_pending {
+                let mut dirs: BTreeSet<String> = self.hosts[h]
                     .facts
-                    .iter()
-                    .filter(|(i, f)| **i != ino && f.renamed.as_ref().map(|r| r.names.iter().any(|n| n == p)).unwrap_or(false))
-                    .map(|(i, _)| *i)
+                    .values()
+                    .filter_map(|f| f.renamed.as_ref())
+                    .filter(|r| r.names.iter().any(|n| n == p))
+                    .flat_map(|r| r.parents())
                     .collect();
-                for o in others {
-                    self.taint_data(h, o, "F-C10-2");
+                dirs.insert(parent_of(p));
+                self.hosts[h].facts.get_mut(&ino).unwrap().born_over = dirs;
+            }
+            if self.on(K_RECREATE) {
+                if shows_old_data {
+                    self.taint_data(h, ino, "F-C10-2");
+                    self.out.count("F-C10-2 taint: created over stale data / rename destination", 1);
                 }
+                // (a file that was renamed away from this name and whose rename
+                // is not yet durable sees every data op made under the name, the
+                // truncation of the creating call included: on_len_changed)
             }
         } else if n.entry_pending {
             self.out.label("file-recreated-under-clean-vacated-name");
@@ -1291,15 +1433,19 @@ impl<'a> Run<'a> {
         // directory whose removal is not yet durable; after a rename of that
         // file the destination looks like a directory as well
         if self.hosts[h].dir_removed.contains(p) {
+            // the file itself behaves; judged when it is renamed
+            // (on_file_renamed).  With a crash oracle on top the name is given
+            // up at once: a file sync stores a file image under a name that
+            // still is a durable directory, and a crash leaves both
             self.out.label("file-created-under-name-of-removed-directory");
-            if self.on(K_DIR_RECREATE_SYNC) {
+            if self.crash_oracle_on_top() && self.on(K_DIR_RECREATE_SYNC) {
                 self.taint_region(h, p, "F-C10-11");
             }
         }
     }
 
     fn on_file_renamed(&mut self, h: usize, from: &str, to: &str, ino: Ino, replaced: Option<Ino>) {
-        let pend_before = self.name(h, from).entry_pending || self.name(h, to).entry_pending;
+        let (pre_from, pre_to) = (self.name(h, from).entry_pending, self.name(h, to).entry_pending);
         let to_removal_pending = self.name(h, to).removal_pending;
         if let Some(victim) = replaced {
             // the victim's synced content is overwritten when the rename
@@ -1309,10 +1455,22 @@ impl<'a> Run<'a> {
         self.file_leaves(h, from, ino, true);
         // F-C10-2 (second form): a file renamed onto a name whose former
         // holder left unsynced data ops behind gets them applied later
-        if self.name(h, to).stale_pending || to_removal_pending {
+        let stale_pending = self.name(h, to).stale_pending;
+        if stale_pending || to_removal_pending {
             self.out.label("file-renamed-onto-name-with-pending-removal-or-stale-data");
+            self.out.label(if stale_pending {
+                "rename-onto:name-with-unsynced-data-of-former-holder"
+            } else {
+                "rename-onto:name-with-pending-removal-only (asserted)"
+            });
             if self.on(K_RECREATE) {
-                self.taint_data(h, ino, "F-C10-2");
+                // the arriving file itself reads correctly for now; it is
+                // judged when the rename becomes durable (on_dir_synced) --
+                // unless a crash oracle is layered on top: a crash tears the
+                // former holder's unsynced writes into the image under the name
+                if stale_pending && self.crash_oracle_on_top() {
+                    self.taint_data(h, ino, "F-C10-2");
+                }
                 // files renamed away from `to` earlier (not yet durable) get
                 // this file's data attributed to them
                 let others: Vec<Ino> = self.hosts[h]
@@ -1323,14 +1481,25 @@ impl<'a> Run<'a> {
                     .collect();
                 for o in others {
                     self.taint_data(h, o, "F-C10-2");
+                    self.out.count("F-C10-2 taint: file renamed away from a name that is renamed onto", 1);
                 }
             }
         }
         self.name(h, to).entry_pending = true;
         if self.hosts[h].dir_removed.contains(to) {
-            // F-C10-11 (kind confusion), see on_file_created
+            // see on_file_created
             self.out.label("file-renamed-onto-name-of-removed-directory");
+            if self.crash_oracle_on_top() && self.on(K_DIR_RECREATE_SYNC) {
+                self.taint_region(h, to, "F-C10-11");
+            }
+        }
+        if self.hosts[h].dir_removed.contains(from) {
+            // F-C10-11 (kind confusion): a file that sat under the name of a
+            // directory whose removal is not yet durable is renamed: the
+            // destination looks like a directory as well
+            self.out.label("file-renamed-away-from-name-of-removed-directory");
             if self.on(K_DIR_RECREATE_SYNC) {
+                self.taint_region(h, from, "F-C10-11");
                 self.taint_region(h, to, "F-C10-11");
             }
         }
@@ -1339,23 +1508,54 @@ impl<'a> Run<'a> {
             Some(mut r) => {
                 r.dirty_at_rename |= f.dirty;
                 r.names.push(to.to_string());
-                r.entry_pending |= pend_before;
+                r.pre.push(pre_to);
                 r
             }
             None => Ren {
                 dirty_at_rename: f.dirty,
                 names: vec![from.to_string(), to.to_string()],
-                entry_pending: pend_before,
+                pre: vec![pre_from, pre_to],
             },
         };
         if ren.names.len() > 2 {
             self.out.label("rename-chain");
         }
+        // F-C10-2 (second form, immediate variant): data ops stay attached to
+        // the name they were made under and travel along every not-yet-durable
+        // rename made *from* that name, whichever file it moved.  A file that
+        // is renamed back to the first name of its own not-yet-durable chain
+        // closes such a path: whatever was (or will be) written under a name
+        // from which a rename leads into the chain now reaches it
+        let back_at_start = ren.names.len() > 2 && ren.names.first() == ren.names.last();
         self.hosts[h].facts.get_mut(&ino).unwrap().renamed = Some(ren);
+        if back_at_start {
+            self.out.label("rename-chain-returns-to-its-start");
+            if self.on(K_RECREATE) {
+                self.taint_data(h, ino, "F-C10-2");
+                self.out.count("F-C10-2 taint: rename chain returns to its start", 1);
+            }
+        }
     }
 
-    /// A write / set_len / truncate-on-open / fs::write took effect on `ino`.
-    fn on_len_changed(&mut self, h: usize, ino: Ino, last: &Last, is_set_len: bool) {
+    /// `through`: the name the op was made under (path of the call / of the handle).
+    fn on_len_changed(&mut self, h: usize, ino: Ino, last: &Last, is_set_len: bool, through: &str) {
+        // F-C10-2: a data op made under a name is also seen by a file that
+        // was renamed away from that name as long as the rename is not durable
+        let others: Vec<Ino> = self.hosts[h]
+            .facts
+            .iter()
+            .filter(|(i, f)| **i != ino && f.renamed.as_ref().map(|r| r.names.iter().any(|n| n == through)).unwrap_or(false))
+            .map(|(i, _)| *i)
+            .collect();
+        if !others.is_empty() {
+            self.out.label("data-op-under-name-a-file-was-renamed-away-from");
+            if self.on(K_RECREATE) {
+                for o in others {
+                    self.taint_data(h, o, "F-C10-2");
+                    self.out.count("F-C10-2 taint: file renamed away from a name under which data ops are made", 1);
+                }
+            }
+        }
         let f = self.hosts[h].facts.entry(ino).or_default().clone();
         // F-C10-1: writes / set_len through the new name of a renamed file
         if f.renamed.is_some() {
@@ -1388,7 +1588,16 @@ impl<'a> Run<'a> {
         }
     }
 
-    fn on_file_synced(&mut self, h: usize, ino: Ino) {
+    /// `through`: the name of the handle the sync was made through.
+    fn on_file_synced(&mut self, h: usize, ino: Ino, through: &str) {
+        // the synced image is stored under the name; a file that was renamed
+        // away from that name (rename not yet durable) takes the image along
+        // when its rename becomes durable: it counts as file-synced from now on
+        for (i, f) in self.hosts[h].facts.iter_mut() {
+            if *i != ino && f.renamed.as_ref().map(|r| r.names.iter().any(|n| n == through)).unwrap_or(false) {
+                f.ever_synced = true;
+            }
+        }
         let f = self.hosts[h].facts.entry(ino).or_default();
         f.ever_synced = true;
         if f.renamed.is_none() {
@@ -1418,10 +1627,35 @@ impl<'a> Run<'a> {
                 }
             }
         }
+        // F-C10-2 (third form): a file created under a name whose former
+        // holder's departure was not yet durable, then file-synced: the
+        // sync_dir that makes the old departure durable throws the new file's
+        // synced data away with it
+        let born: Vec<Ino> = self.hosts[h]
+            .facts
+            .iter()
+            .filter(|(_, f)| f.born_over.contains(p))
+            .map(|(i, _)| *i)
+            .collect();
+        for ino in born {
+            let f = self.hosts[h].facts.get_mut(&ino).unwrap();
+            f.born_over.remove(p);
+            if f.ever_synced {
+                f.born_over.clear();
+                self.out.label("sync_dir-after-file-sync-of-file-recreated-under-pending-removal");
+                if self.on(K_RECREATE) {
+                    self.taint_data(h, ino, "F-C10-2");
+                    self.out.count("F-C10-2 taint: file-synced re-created file, old removal made durable", 1);
+                }
+            }
+        }
         // removals / re-creations directly in p are durable now
         let in_p = |q: &String| parent_of(q) == p;
         self.hosts[h].dir_removed.retain(|q| !in_p(q));
         self.hosts[h].dir_recreated.retain(|q| !in_p(q));
+        // names under which a synced image comes to rest although its file is
+        // not (or no longer) there
+        let mut landed: Vec<String> = Vec::new();
         let inos: Vec<Ino> = self.hosts[h].facts.keys().copied().collect();
         for ino in inos {
             let Some(r) = self.hosts[h].facts[&ino].renamed.clone() else { continue };
@@ -1429,17 +1663,41 @@ impl<'a> Run<'a> {
             if !parents.contains(p) {
                 continue;
             }
-            if parents.len() > 1 && (r.names.len() > 2 || r.entry_pending) {
-                // F-C10-10: sync_dir of one of several directories involved in
-                // not-yet-durable rename(s) of a file, while a create/remove/
-                // rename of one of the names in another directory is still
-                // not durable: the renames are made durable out of order and
-                // the file vanishes / reappears under an old name
+            // how many renames of the chain this sync_dir makes durable
+            let hops = r.names.len() - 1;
+            let in_order = r.flushed_in_order(p);
+            if parents.len() > 1 {
                 self.out.label("partial-sync_dir-after-cross-dir-rename");
+                self.out.label(match in_order {
+                    Some(m) if m == hops => "partial-sync_dir:whole-chain-in-history-order (asserted)",
+                    Some(_) => "partial-sync_dir:prefix-of-chain-in-history-order (asserted)",
+                    None => "partial-sync_dir:out-of-order",
+                });
+            }
+            if in_order.is_none() {
+                // F-C10-10: sync_dir of one of several directories involved in
+                // not-yet-durable rename(s) of a file makes a rename durable
+                // while an earlier create / remove / rename on one of its names
+                // -- in another directory -- is still not durable: the entry
+                // ops become durable out of order and the file vanishes /
+                // reappears under an old name
                 if self.on(K_XDIR_SYNC) {
                     for n in &r.names {
                         self.taint_region(h, n, "F-C10-10");
                     }
+                }
+            }
+            let m = in_order.unwrap_or(hops);
+            // F-C10-2 (second form): a rename that brought the file to a name
+            // becomes durable while a former holder of that name still has
+            // unsynced data ops: from now on they are applied to this file
+            let cur = r.names.last().cloned().unwrap_or_default();
+            let pos = r.names[m].clone();
+            if self.hosts[h].model.lookup(&cur) == Some(ino) && self.name(h, &pos).stale_pending {
+                self.out.label("sync_dir-after-rename-onto-name-with-unsynced-data-of-former-holder");
+                if self.on(K_RECREATE) {
+                    self.taint_data(h, ino, "F-C10-2");
+                    self.out.count("F-C10-2 taint: renamed onto stale name, rename made durable", 1);
                 }
             }
             if r.dirty_at_rename {
@@ -1450,8 +1708,31 @@ impl<'a> Run<'a> {
                     self.taint_data(h, ino, "F-C10-1");
                 }
             }
+            // what is left of the chain may now start at the name the file is
+            // back at (see on_file_renamed)
+            if m < hops && hops - m > 1 && r.names[m] == cur {
+                self.out.label("rename-chain-returns-to-its-start");
+                if self.on(K_RECREATE) {
+                    self.taint_data(h, ino, "F-C10-2");
+                    self.out.count("F-C10-2 taint: rename chain returns to its start", 1);
+                }
+            }
+            if self.hosts[h].facts[&ino].ever_synced && self.hosts[h].model.lookup(&pos) != Some(ino) && parent_of(&pos) != p {
+                landed.push(pos.clone());
+            }
             let f = self.hosts[h].facts.get_mut(&ino).unwrap();
-            f.renamed = None;
+            f.renamed = if m < hops {
+                // the later renames of the chain are still not durable
+                let mut pre = r.pre[m..].to_vec();
+                pre[0] = false;
+                Some(Ren {
+                    dirty_at_rename: r.dirty_at_rename,
+                    names: r.names[m..].to_vec(),
+                    pre,
+                })
+            } else {
+                None
+            };
             // names of the chain outside p conservatively stay "entry
             // pending" until their own parent is synced
         }
@@ -1462,6 +1743,9 @@ impl<'a> Run<'a> {
                 nf.stale_persisted = false;
                 nf.removal_pending = false;
             }
+        }
+        for n in landed {
+            self.name(h, &n).stale_persisted = true;
         }
     }
 }
@@ -2043,6 +2327,13 @@ fn check(tier: Tier, seed: u64) -> i32 {
         let _ = std::fs::remove_dir_all(format!("/tmp/tvh-c10-os-{}", std::process::id()));
         return code;
     }
+    if std::env::var("C10_SURVEY").is_ok() {
+        // development aid: failures become labels (`survey-fail:<signature>`,
+        // `survey-fail-with:<label of the failing case>`) so that one run gives
+        // the failure rate per shape; exit code / SUMMARY are meaningless
+        ctx.random("histories", tier.pick(48_000, 800_000), &move || strategy_with(strict), &run_survey);
+        return ctx.finish("survey (development aid)", &[]);
+    }
     ctx.random(
         "histories",
         tier.pick(48_000, 800_000),
@@ -2058,9 +2349,28 @@ fn check(tier: Tier, seed: u64) -> i32 {
             "error kinds are compared where std's errno mapping is unambiguous (NotFound, AlreadyExists, NotADirectory, IsADirectory, DirectoryNotEmpty, InvalidInput); EBADF/EPERM-like situations only require Ok/Err agreement",
             "timestamps, permission bits, symlinks, hard links are outside the property",
             "objects touched by findings F-C10-1..14 are avoided or tainted only while the finding has status \"known\" in known_findings.json (counted in excluded_by_known_finding); while F-C10-4 is known, directory renames other than into the own subtree are not executed in the random tier",
+            "F-C10-2 (name re-used while its former holder's departure is not durable) excludes only: non-truncating re-creation over left-over unsynced data ops or a left-over synced image; re-creation under a name that is the destination of a not-yet-durable rename; a re-created file that was file-synced, from the sync_dir that makes the old departure durable; a file renamed onto a name with left-over unsynced data ops, from the sync_dir that makes the rename durable, or when its rename chain returns to its start; a file renamed away (not durable) from a name that is renamed onto or under which data ops are made. Truncating re-creation (create+truncate+write, create_new+truncate+write, File::create, fs::write, tokio fs::write) and non-truncating re-creation over nothing are asserted in full",
+            "F-C10-10 excludes only sync_dir calls that make a rename durable while an earlier not-yet-durable create/remove/rename on one of its two names lies in another directory; F-C10-11 excludes sync_dir of a re-created directory and a file renamed away from the name of a removed directory",
             "the two hosts are two Fs + IoUringHostState instances driven directly (FsDirect), not hosts of a turmoil::Sim",
         ],
     )
+}
+
+fn run_survey(sc: &Scenario) -> Outcome {
+    let mut o = run(sc);
+    if let Some(f) = o.failure.take() {
+        // C10_SURVEY=<prefix>: labels starting with the prefix are also paired with the signature
+        let pfx = std::env::var("C10_SURVEY").unwrap_or_default();
+        for l in o.labels.clone() {
+            o.label(format!("survey-fail-with:{l}"));
+            if pfx.len() > 1 && l.starts_with(&pfx) {
+                o.label(format!("survey-pair:{l} => {}", f.signature));
+            }
+        }
+        o.label(format!("survey-fail:{}", f.signature));
+        o.label("survey-fail");
+    }
+    o
 }
 
 fn replay(_sub: &str, v: &Value) -> Result<Outcome, String> {
